@@ -79,7 +79,7 @@ func newLedgerStats() *ledgerStats {
 
 // blockScope families build their own transaction (or change the block); they run once per block.
 func blockScope(e ext) bool {
-	return e.Ver == 0 || e.Fam == "weight" || e.Fam == "empty" || e.Fam == "era" || e.Fam == "decoded" || e.Fam == "confuse"
+	return e.Ver == 0 || e.Fam == "weight" || e.Fam == "empty" || e.Fam == "era" || e.Fam == "decoded" || e.Fam == "confuse" || e.Fam == "suppera"
 }
 
 func keyMap(sim *chain.Sim) map[types.PublicKey]types.PrivateKey {
@@ -168,6 +168,31 @@ func mutateBlock(c *vlib.Ctx, st *ledgerStats, exts []ext, sim *chain.Sim, g *gu
 			created.v2fc = append(created.v2fc, types.Hash256(d.V2FileContractElement.ID))
 		}
 	}
+	// what the block's transactions record (block-level outputs -- payouts, subsidy, missed-proof outputs -- come after them)
+	nSC := len(a.Update.SiacoinElementDiffs()) - len(a.Block.MinerPayouts)
+	for _, fce := range a.Supp.ExpiringFileContracts {
+		nSC -= len(fce.FileContract.MissedProofOutputs)
+	}
+	if _, ok := a.Prev.FoundationSubsidy(); ok {
+		nSC--
+	}
+	if nSC < 0 {
+		nSC = 0
+	}
+	nSF := len(a.Update.SiafundElementDiffs())
+	// a v1 / v2 transaction that an earlier block of this history carried
+	var earlierV1 *types.Transaction
+	var earlierV2 *types.V2Transaction
+	for i := len(sim.Chain) - 2; i >= 0 && (earlierV1 == nil || earlierV2 == nil); i-- {
+		if earlierV1 == nil && len(sim.Chain[i].Block.Transactions) > 0 {
+			t := sim.Chain[i].Block.Transactions[0]
+			earlierV1 = &t
+		}
+		if v2 := sim.Chain[i].Block.V2Transactions(); earlierV2 == nil && len(v2) > 0 {
+			t := v2[0].DeepCopy()
+			earlierV2 = &t
+		}
+	}
 	count := func(entry string, ok bool) {
 		local.perEntry[entry]++
 		if ok {
@@ -205,7 +230,7 @@ func mutateBlock(c *vlib.Ctx, st *ledgerStats, exts []ext, sim *chain.Sim, g *gu
 			if skip {
 				return
 			}
-			m := &mctx{sim: sim, cs: a.Prev, child: child, ver: tg.ver, k: tg.k, abs: tg.abs, keys: keys, created: created, preChecked: preChecked}
+			m := &mctx{sim: sim, cs: a.Prev, child: child, ver: tg.ver, k: tg.k, abs: tg.abs, keys: keys, created: created, preChecked: preChecked, nSC: nSC, nSF: nSF, earlierV1: earlierV1, earlierV2: earlierV2}
 			if rich {
 				m.cs.SiafundTaxRevenue = types.Siacoins(1000)
 			}
@@ -360,8 +385,9 @@ func mutateBlock(c *vlib.Ctx, st *ledgerStats, exts []ext, sim *chain.Sim, g *gu
 			}
 		}
 	}
-	// sampling: the two big families (pairs of currency members, covered-field lists) get 1/stride of their applicable
-	// entries per block, rotating with the block; every other entry runs on every block it applies to
+	// sampling: the big families (pairs of currency members, covered-field lists, decoded documents, supplement x shape,
+	// ids of another kind) get a fraction of their applicable entries per block, rotating with the block; every other
+	// entry runs on every block it applies to; the fixed behaviours (scenarios.go) get every entry
 	seq := 0
 	take := func(e ext) bool {
 		s := 1
@@ -370,6 +396,10 @@ func mutateBlock(c *vlib.Ctx, st *ledgerStats, exts []ext, sim *chain.Sim, g *gu
 			s = stride
 		case "covered":
 			s = (stride + 2) / 3
+		case "decoded":
+			s = (stride + 1) / 2 // the documents do not depend on the block
+		case "suppera", "confuse":
+			s = (stride + 3) / 4
 		}
 		seq++
 		return seq%s == phase%s
